@@ -77,6 +77,9 @@ pub enum Act {
     ConsumeTwice,
     /// 2-4 threads ask for the same unconsumed id at the same moment
     ConsumeRacing(u8),
+    /// fail on a root of one's own, close it, put another directory at that descriptor
+    /// number, and only then fetch the error: it must still describe the failure as it happened
+    FailCloseReuse,
     FreeNull,
     /// pathrs_errorinfo() of values that are not error ids
     InfoOfNonId(i32),
@@ -95,6 +98,7 @@ fn act() -> impl Strategy<Value = Act> {
         3 => Just(Act::ConsumeReceived),
         2 => Just(Act::ConsumeTwice),
         1 => (0u8..3).prop_map(Act::ConsumeRacing),
+        1 => Just(Act::FailCloseReuse),
         1 => Just(Act::FreeNull),
         1 => prop_oneof![Just(0), Just(-1), Just(-2), Just(-4095), Just(5), Just(i32::MAX), Just(-22)].prop_map(Act::InfoOfNonId),
     ]
@@ -113,6 +117,8 @@ pub struct Report {
     pub double_consumes: u64,
     #[serde(default)]
     pub racing_consumes: u64,
+    #[serde(default)]
+    pub late_fetches: u64,
     pub kinds: Vec<(String, u64)>,
     pub sample_descriptions: Vec<(String, u64, String)>,
     pub leftover: u64,
@@ -208,7 +214,7 @@ pub fn child(case: &Case) -> Report {
         txs.push(tx);
         rxs.push(Some(rx));
     }
-    let counters = Arc::new(Mutex::new((0u64, 0u64, 0u64, 0u64, HashMap::<String, u64>::new(), 0u64)));
+    let counters = Arc::new(Mutex::new((0u64, 0u64, 0u64, 0u64, HashMap::<String, u64>::new(), 0u64, 0u64)));
     let mut handles = vec![];
     for (ti, acts) in case.threads.iter().cloned().enumerate() {
         let model = model.clone();
@@ -217,6 +223,9 @@ pub fn child(case: &Case) -> Report {
         let txs = txs.clone();
         let rx = rxs[ti].take().unwrap();
         let counters = counters.clone();
+        let root_c = CString::new(root.as_os_str().as_encoded_bytes()).unwrap();
+        let stash_c = CString::new(sb.stash().as_os_str().as_encoded_bytes()).unwrap();
+        let stash_s = sb.stash().to_string_lossy().to_string();
         handles.push(std::thread::spawn(move || {
             let mut own: Vec<i32> = vec![];
             let mut received: Vec<i32> = vec![];
@@ -320,6 +329,44 @@ pub fn child(case: &Case) -> Report {
                             c.5 += 1;
                         }
                     }
+                    Act::FailCloseReuse => {
+                        // the descriptor table is shared: nobody else may open or close anything meanwhile
+                        let _g = quiesce.write().unwrap();
+                        let own = unsafe { pathrs_open_root(root_c.as_ptr()) };
+                        if own >= 0 {
+                            let id = unsafe { pathrs_inroot_resolve(own, b"missing/x\0".as_ptr() as *const libc::c_char) };
+                            unsafe { libc::close(own) };
+                            let decoy = unsafe { libc::open(stash_c.as_ptr(), libc::O_PATH | libc::O_DIRECTORY | libc::O_CLOEXEC) };
+                            let placed = if decoy >= 0 && decoy != own { unsafe { libc::dup3(decoy, own, libc::O_CLOEXEC) } } else { decoy };
+                            if id < -MAX_ERRNO {
+                                match take_error(id) {
+                                    Some((e, d)) => {
+                                        let mut m = model.lock().unwrap();
+                                        if e as i32 != libc::ENOENT {
+                                            m.problems.push(format!("thread {}: error {} carries saved_errno {} but the failing call implies ENOENT", ti, id, e));
+                                        }
+                                        if d.contains(stash_s.as_str()) {
+                                            m.problems.push(format!("thread {}: the description of error {} names a directory that was put at the failing call's descriptor number only afterwards: \"{}\"", ti, id, d.chars().take(200).collect::<String>()));
+                                        }
+                                        drop(m);
+                                        let mut c = counters.lock().unwrap();
+                                        c.0 += 1;
+                                        c.1 += 1;
+                                        c.6 += 1;
+                                    }
+                                    None => model.lock().unwrap().problems.push(format!("thread {}: pathrs_errorinfo({}) returned NULL for an id that was never consumed", ti, id)),
+                                }
+                            } else {
+                                model.lock().unwrap().problems.push(format!("thread {}: a call that must fail returned {}", ti, id));
+                            }
+                            if placed >= 0 {
+                                unsafe { libc::close(placed) };
+                            }
+                            if decoy >= 0 && decoy != placed {
+                                unsafe { libc::close(decoy) };
+                            }
+                        }
+                    }
                     Act::FreeNull => unsafe { pathrs_errorinfo_free(std::ptr::null_mut()) },
                     Act::InfoOfNonId(v) => {
                         let _g = quiesce.read().unwrap();
@@ -365,7 +412,7 @@ pub fn child(case: &Case) -> Report {
     if !m.live.is_empty() {
         problems.push(format!("{} ids are unaccounted for in the model", m.live.len()));
     }
-    Report { problems, failures: c.0, consumed: c.1 + 0, handoffs: c.2, double_consumes: c.3, racing_consumes: c.5, kinds: c.4.iter().map(|(k, v)| (k.clone(), *v)).collect(), sample_descriptions: m.samples.clone(), leftover }
+    Report { problems, failures: c.0, consumed: c.1 + 0, handoffs: c.2, double_consumes: c.3, racing_consumes: c.5, late_fetches: c.6, kinds: c.4.iter().map(|(k, v)| (k.clone(), *v)).collect(), sample_descriptions: m.samples.clone(), leftover }
 }
 
 /// Hold `n` unconsumed ids at once: all distinct, all below -4095, each retrievable once.
@@ -417,6 +464,7 @@ pub fn judge(case: &Case, rep: &Report, stats: &mut Stats) -> Result<(), Fail> {
     stats.count("cross_thread_handoffs", rep.handoffs);
     stats.count("double_consumes", rep.double_consumes);
     stats.count("racing_consumes", rep.racing_consumes);
+    stats.count("errors_fetched_after_descriptor_reuse", rep.late_fetches);
     stats.count("consumed_at_the_end_from_another_thread", rep.leftover);
     stats.class(&format!("threads:{}", case.threads.len()));
     for (k, v) in &rep.kinds {
@@ -502,7 +550,7 @@ fn replay(_ctx: &Ctx, check_name: &str, case: &Value) -> Result<(), Fail> {
 pub const PROP: Prop = Prop {
     id: "C16",
     level: "exploration",
-    rule: "T in {1,2,4,8,16} free-running threads (released together from a barrier) x per-thread history of 0-39 actions {failing C call of 14 kinds (ENOENT, ENOTDIR, ELOOP, EINVAL through negative fd / NULL path / unknown procfs base / setuid mode / trailing slash, ENOSYS for S_IFSOCK, EEXIST, EISDIR, ENOTEMPTY, EXDEV from leaving a procfs base, EBADF), consume own oldest id, hand an id to another thread, consume a received id, consume twice, 2-4 threads released together asking for the same unconsumed id (exactly one may obtain it), pathrs_errorinfo_free(NULL), pathrs_errorinfo of non-ids (0, -1, -4095, 5 …)}. A model of the live ids is kept under the harness's own lock, updated so that it is always a subset of what the library must still hold (an id leaves the model before it is read; double reads exclude concurrent failures). Oracle, valid under every schedule: each id < -4095; never equal to an id the model still holds; pathrs_errorinfo from whichever thread returns non-NULL exactly once with the errno the failing call implies and a non-empty description, NULL the second time and for non-ids; ids left at the end are read from yet another thread. Plus 60 000 (thorough: 300 000) ids held unconsumed at once: pairwise distinct, all retrievable once. non-trivial = histories with a cross-thread hand-off or a double read",
+    rule: "T in {1,2,4,8,16} free-running threads (released together from a barrier) x per-thread history of 0-39 actions {failing C call of 14 kinds (ENOENT, ENOTDIR, ELOOP, EINVAL through negative fd / NULL path / unknown procfs base / setuid mode / trailing slash, ENOSYS for S_IFSOCK, EEXIST, EISDIR, ENOTEMPTY, EXDEV from leaving a procfs base, EBADF), consume own oldest id, hand an id to another thread, consume a received id, consume twice, 2-4 threads released together asking for the same unconsumed id (exactly one may obtain it), a failure on a root of one's own that is closed and whose descriptor number is given to another directory before the error is fetched (the description must not name that directory), pathrs_errorinfo_free(NULL), pathrs_errorinfo of non-ids (0, -1, -4095, 5 …)}. A model of the live ids is kept under the harness's own lock, updated so that it is always a subset of what the library must still hold (an id leaves the model before it is read; double reads exclude concurrent failures). Oracle, valid under every schedule: each id < -4095; never equal to an id the model still holds; pathrs_errorinfo from whichever thread returns non-NULL exactly once with the errno the failing call implies and a non-empty description, NULL the second time and for non-ids; ids left at the end are read from yet another thread. Plus 60 000 (thorough: 300 000) ids held unconsumed at once: pairwise distinct, all retrievable once. non-trivial = histories with a cross-thread hand-off or a double read",
     assumptions: &["thread interleavings are whatever the scheduler produces (the table's mutex is a userspace lock the gate cannot own); the oracle does not depend on the schedule", "an id range that is wrong only on a 2^-19 slice of draws is beyond sampling"],
     lanes: |_| 16,
     run_lane,
